@@ -65,6 +65,23 @@ structure Ctr where
   retained : Nat
   maxNom : Nat
 
+/-- `if (h == 0) compactors_[0].sort()` -/
+def sortIf0 (h : Nat) (c : Compactor ρ) : Compactor ρ := if h = 0 then c.sort else c
+
+/-- `compactors_[h + 1]`, after `grow()` if `h` is the top level -/
+def nextOf (T : Tun) (F : SecFns ρ) (hra : Bool) (k h : Nat) (rest : List (Compactor ρ)) : Compactor ρ :=
+  match rest with
+  | [] => Compactor.mk' T F hra (h + 1) k
+  | n :: _ => n
+
+/-- `grow()` at the top: `update_max_nom_size()` (a recomputation: the sum changes by the new compactor's capacity) -/
+def ctrGrow (T : Tun) (ctr : Ctr) (top : Bool) (nx : Compactor ρ) : Ctr :=
+  if top then { ctr with maxNom := ctr.maxNom + nx.nomCap T } else ctr
+
+/-- `num_retained_ -= pair.first; max_nom_size_ += pair.second;` -/
+def ctrAfter (ctr : Ctr) (r : CompactRes ρ) : Ctr :=
+  { retained := ctr.retained - r.num, maxNom := ctr.maxNom + r.capNew - r.capOld }
+
 /-- the loop of `compress()` from level `h` on; `todo` = compactors `h, h+1, …`.
 `fuel` = (items + 1 per level) is always enough (see `DSProofs/Lemmas/ReqBound.lean`). Returns the new compactors `h…`. -/
 def compressLoop (T : Tun) (F : SecFns ρ) (hra : Bool) (k : Nat) :
@@ -73,17 +90,9 @@ def compressLoop (T : Tun) (F : SecFns ρ) (hra : Bool) (k : Nat) :
   | _ + 1, _, [], ctr, acc => ([], ctr, acc)
   | fuel + 1, h, c :: rest, ctr, acc =>
     if c.numItems ≥ c.nomCap T then
-      let c1 := if h = 0 then c.sort else c
-      -- `if (h + 1 >= get_num_levels()) grow()`: new top level, `update_max_nom_size()` (a recomputation: no change of the sum
-      -- except the new compactor's capacity)
-      let top := rest.isEmpty
-      let nx := match rest with
-        | [] => Compactor.mk' T F hra (h + 1) k
-        | n :: _ => n
-      let ctr1 : Ctr := if top then { ctr with maxNom := ctr.maxNom + nx.nomCap T } else ctr
-      let r := c1.compact T F nx acc.peek
-      let acc2 := acc.afterCompact c1.lgWeight r.fresh r.oddConst r.rangeOk
-      let ctr2 : Ctr := { retained := ctr1.retained - r.num, maxNom := ctr1.maxNom + r.capNew - r.capOld }
+      let r := (sortIf0 h c).compact T F (nextOf T F hra k h rest) acc.peek
+      let acc2 := acc.afterCompact (sortIf0 h c).lgWeight r.fresh r.oddConst r.rangeOk
+      let ctr2 := ctrAfter (ctrGrow T ctr rest.isEmpty (nextOf T F hra k h rest)) r
       if T.lazy && ctr2.retained < ctr2.maxNom then
         (r.cur :: r.nxt :: rest.tail, ctr2, acc2)
       else
